@@ -339,6 +339,19 @@ structure ResAcc where
   stillInProgress : Bool := false
   exec : InProg
 
+/-- `retries.next(elapsed, failures, exception)` when the step has a retry policy, else give up -/
+def retryDecision (cfg : Cfg) (pol : Policy) (step : Nat) (elapsed : Int) (failures exc : Nat) : PolDecision :=
+  match cfg.find step with
+  | some c => if c.hasRetry then pol step elapsed failures exc else .stop
+  | none => .stop
+
+/-- the `@catch_error` handler that owns `step` and its `max_recoveries`
+(`handler_for_step.get(step)` then `catch_error_handlers.get(...)`) -/
+def handlerOwner (cfg : Cfg) (step : Nat) : Option (Nat × Nat) :=
+  match lookup cfg.handlerFor step with
+  | some h => (match lookup cfg.handlers h with | some m => some (h, m) | none => none)
+  | none => none
+
 def clearAll (st : State) : State :=
   { st with workers := fun s => { st.workers s with collected := [], waiters := [] } }
 
@@ -359,9 +372,7 @@ def applyRes (cfg : Cfg) (pol : Policy) (step : Nat) (tickEv : Ev) (didComplete 
   | .failed exc failedAt =>
     let failures := acc.exec.attempts + 1
     let elapsed := failedAt - acc.exec.firstAt
-    let hasRetry := match cfg.find step with | some c => c.hasRetry | none => false
-    let dec := if hasRetry then pol step elapsed failures exc else .stop
-    match dec with
+    match retryDecision cfg pol step elapsed failures exc with
     | .retry d =>
       { acc with cmds := acc.cmds ++
           [.queueEvent { ev := tickEv, attempts := some failures, firstAt := some acc.exec.firstAt,
@@ -369,11 +380,7 @@ def applyRes (cfg : Cfg) (pol : Policy) (step : Nat) (tickEv : Ev) (didComplete 
             (some step) (some d)] }
     | .raise => { acc with cmds := acc.cmds ++ [.crash] }
     | .stop =>
-      let handler : Option (Nat × Nat) :=
-        match lookup cfg.handlerFor step with
-        | some h => (match lookup cfg.handlers h with | some m => some (h, m) | none => none)
-        | none => none
-      match handler with
+      match handlerOwner cfg step with
       | some (h, maxRec) =>
         let newCount := acc.exec.rc.get h + 1
         if newCount ≤ maxRec then
